@@ -8,6 +8,9 @@ import NurbsVerif.Lemmas.ConfigSpanBin
 import NurbsVerif.Lemmas.ConfigWitness
 import NurbsVerif.Lemmas.ConfigEvalCoded
 import NurbsVerif.Lemmas.FitParams
+import NurbsVerif.Lemmas.KnotRangeFoldOps
+import NurbsVerif.Lemmas.KnotRangeFoldDecomp
+import NurbsVerif.Lemmas.KnotRangeFoldWitness
 
 /-!
 # C17  Results do not depend on configuration choices
@@ -26,12 +29,18 @@ import NurbsVerif.Lemmas.FitParams
 * knot operations and the knot range: insertion, removal, refinement (helper level and one direction of the
   object-level operations) return the same control points and the mapped knot vectors; splitting returns
   identical pieces;
+* … all directions at once: `insertKnot`, `removeKnot`, `refineKnotvector` (the folds over the directions, any subset
+  requested) on the shape with EVERY knot vector mapped (`Shape.affineKvs S a b`: direction `d` by `x ↦ a d·x + b d`)
+  return the mapped result; `decomposeDir` / `decomposeUV` return identical pieces (as soon as one split happens);
 * the binary span search returns (never runs out of fuel) on the whole domain, for tolerances `0 < tol < 1/2` (the
   range on which the model's start index is the code's `int(round((low+high)/2 + tol))`).
 
 `scaleJet c L` is the list `L` with entry `k` multiplied coordinatewise by `cᵏ`; `scaleJet2 cu cv T` the table `T`
 with entry `[k][l]` multiplied by `cuᵏ·cvˡ`; `Shape.affineKv S dir a b` the shape `S` with the knot vector of
-direction `dir` mapped by `x ↦ a·x + b` (auxiliary descriptions, `Lemmas/ConfigDers.lean`, `ConfigObj.lean`).
+direction `dir` mapped by `x ↦ a·x + b` (auxiliary descriptions, `Lemmas/ConfigDers.lean`, `ConfigObj.lean`);
+`Shape.affineKvs S a b` the shape `S` with the knot vector of every direction `d` mapped by `x ↦ a d·x + b d`
+(= the one-direction maps one after the other, `all_directions_map_*`), `affineParams a b params` the parameter list of
+a call with entry `d` mapped the same way (`Lemmas/KnotRangeFold.lean`, `KnotRangeFoldOps.lean`).
 -/
 namespace C17
 open Geomdl Blossom
@@ -417,6 +426,222 @@ theorem remove_knot_affine_knots_fixed_tolerance (S : Shape K) (dir : ℕ) (u : 
     removeKnotDir (S.affineKv dir a b) dir (a * u + b) num tol tol2 check
       = (removeKnotDir S dir u num tol tol2 check).map (fun T => T.affineKv dir a b) :=
   removeKnotDir_affine_fixed_tol S dir u num tol tol2 a b check ha htol hne hsep
+
+/-! ### knot operations on a shape whose knot vectors are ALL on other ranges (the folds over the directions) -/
+
+/-- `Shape.affineKvs` on a surface is the one-direction map `Shape.affineKv` applied to direction 0, then 1 … -/
+theorem all_directions_map_surface (S : Shape K) (a b : ℕ → K) (h : S.kvs.length = 2) :
+    S.affineKvs a b = (S.affineKv 0 (a 0) (b 0)).affineKv 1 (a 1) (b 1) :=
+  affineKvs_two S a b h
+
+/-- … on a volume to directions 0, 1, 2; on a curve to direction 0. -/
+theorem all_directions_map_volume (S : Shape K) (a b : ℕ → K) (h : S.kvs.length = 3) :
+    S.affineKvs a b = ((S.affineKv 0 (a 0) (b 0)).affineKv 1 (a 1) (b 1)).affineKv 2 (a 2) (b 2) :=
+  affineKvs_three S a b h
+
+theorem all_directions_map_curve (S : Shape K) (a b : ℕ → K) (h : S.kvs.length = 1) :
+    S.affineKvs a b = S.affineKv 0 (a 0) (b 0) :=
+  affineKvs_one S a b h
+
+/-- **`operations.insert_knot`, the whole call** (model `insertKnot`: the loop over the directions; a `none`
+    parameter or a zero count skips a direction; the flag tells whether the call completed or the multiplicity check
+    of some direction raised after the earlier ones had been applied).  On the shape with every knot vector mapped
+    (`x ↦ a d·x + b d` in direction `d`), with the parameters mapped the same way and the tolerance `tol'`: the
+    resulting object is the mapped result (same net, same sizes, mapped knot vectors) and the call completes / raises
+    in the same cases.  Hypotheses, for every REQUESTED direction only: `a d > 0`, a non-empty knot vector, and
+    `tol' = a d · tol` (the multiplicity tolerance scaled with the range: one common factor for the requested
+    directions, or `tol = tol' = 0`).  Unrequested directions may carry any map. -/
+theorem insert_knot_all_directions_affine_knots (S : Shape K) (a b : ℕ → K) (params : List (Option K)) (nums : List ℕ)
+    (tol tol' : K) (check : Bool)
+    (hreq : ∀ d, d < S.pdim → ∀ u, params.getD d none = some u → nums.getD d 0 ≠ 0 →
+      0 < a d ∧ S.kv d ≠ [] ∧ tol' = a d * tol) :
+    insertKnot (S.affineKvs a b) (affineParams a b params) nums tol' check
+      = ((insertKnot S params nums tol check).1.affineKvs a b, (insertKnot S params nums tol check).2) :=
+  insertKnot_affineKvs S a b params nums tol tol' check hreq
+
+/-- … with the SAME tolerance on every range (the code's fixed `10e-8`) and a different map per direction: it
+    suffices that, for every requested direction, every knot of that direction is either equal to the parameter or
+    further than the tolerance away from it in both ranges. -/
+theorem insert_knot_all_directions_affine_knots_fixed_tolerance (S : Shape K) (a b : ℕ → K)
+    (params : List (Option K)) (nums : List ℕ) (tol : K) (check : Bool) (htol : 0 ≤ tol)
+    (hreq : ∀ d, d < S.pdim → ∀ u, params.getD d none = some u → nums.getD d 0 ≠ 0 →
+      0 < a d ∧ S.kv d ≠ [] ∧ ∀ y ∈ S.kv d, u = y ∨ (tol < |u - y| ∧ tol < a d * |u - y|)) :
+    insertKnot (S.affineKvs a b) (affineParams a b params) nums tol check
+      = ((insertKnot S params nums tol check).1.affineKvs a b, (insertKnot S params nums tol check).2) :=
+  insertKnot_affineKvs_fixed_tol S a b params nums tol check htol hreq
+
+/-- **`operations.remove_knot`, the whole call** (model `removeKnot`), tolerance of the multiplicity search scaled
+    with the range of every requested direction; the removability tolerance `tol2` (distances between control points)
+    is the same on both sides. -/
+theorem remove_knot_all_directions_affine_knots (S : Shape K) (a b : ℕ → K) (params : List (Option K)) (nums : List ℕ)
+    (tol tol' tol2 : K) (check : Bool)
+    (hreq : ∀ d, d < S.pdim → ∀ u, params.getD d none = some u → nums.getD d 0 ≠ 0 →
+      0 < a d ∧ S.kv d ≠ [] ∧ tol' = a d * tol) :
+    removeKnot (S.affineKvs a b) (affineParams a b params) nums tol' tol2 check
+      = ((removeKnot S params nums tol tol2 check).1.affineKvs a b, (removeKnot S params nums tol tol2 check).2) :=
+  removeKnot_affineKvs S a b params nums tol tol' tol2 check hreq
+
+/-- … with the same tolerance on every range, a different map per direction (separation hypothesis as above). -/
+theorem remove_knot_all_directions_affine_knots_fixed_tolerance (S : Shape K) (a b : ℕ → K)
+    (params : List (Option K)) (nums : List ℕ) (tol tol2 : K) (check : Bool) (htol : 0 ≤ tol)
+    (hreq : ∀ d, d < S.pdim → ∀ u, params.getD d none = some u → nums.getD d 0 ≠ 0 →
+      0 < a d ∧ S.kv d ≠ [] ∧ ∀ y ∈ S.kv d, u = y ∨ (tol < |u - y| ∧ tol < a d * |u - y|)) :
+    removeKnot (S.affineKvs a b) (affineParams a b params) nums tol tol2 check
+      = ((removeKnot S params nums tol tol2 check).1.affineKvs a b, (removeKnot S params nums tol tol2 check).2) :=
+  removeKnot_affineKvs_fixed_tol S a b params nums tol tol2 check htol hreq
+
+/-- **`operations.refine_knotvector`, the whole call** (model `refineKnotvector`; a zero density skips a
+    direction): mapped result, "cannot refine" in the same cases.  Only the scaled-tolerance form (`tol' = a d · tol` for
+    every requested direction), as for the one-direction theorem. -/
+theorem refine_knotvector_all_directions_affine_knots (S : Shape K) (a b : ℕ → K) (dens : List ℕ) (tol tol' : K)
+    (hreq : ∀ d, d < S.pdim → dens.getD d 0 ≠ 0 → 0 < a d ∧ S.kv d ≠ [] ∧ tol' = a d * tol) :
+    refineKnotvector (S.affineKvs a b) dens tol'
+      = ((refineKnotvector S dens tol).1.affineKvs a b, (refineKnotvector S dens tol).2) :=
+  refineKnotvector_affineKvs S a b dens tol tol' hreq
+
+/-- **Splitting a shape whose knot vectors are all on other ranges**: the pieces carry normalised knot vectors in
+    EVERY direction, so they are identical whatever the ranges of the other directions are (all `a d > 0`; same tolerance,
+    separation hypothesis for the split direction). -/
+theorem split_all_directions_affine_knots_fixed_tolerance (S : Shape K) (a b : ℕ → K) (dir : ℕ) (u tol : K)
+    (ha : ∀ d, 0 < a d) (htol : 0 ≤ tol)
+    (hp : S.deg dir < (S.kv dir).length) (hn : S.size dir < (S.kv dir).length)
+    (hsep : ∀ y ∈ S.kv dir, u = y ∨ (tol < |u - y| ∧ tol < a dir * |u - y|)) :
+    splitDir (S.affineKvs a b) dir (a dir * u + b dir) tol = splitDir S dir u tol :=
+  splitDir_affineKvs_fixed_tol S a b dir u tol ha htol hp hn hsep
+
+/-- … with the tolerance scaled with the range of the split direction. -/
+theorem split_all_directions_affine_knots (S : Shape K) (a b : ℕ → K) (dir : ℕ) (u tol : K) (ha : ∀ d, 0 < a d)
+    (hp : S.deg dir < (S.kv dir).length) (hn : S.size dir < (S.kv dir).length) :
+    splitDir (S.affineKvs a b) dir (a dir * u + b dir) (a dir * tol) = splitDir S dir u tol :=
+  splitDir_affineKvs S a b dir u tol ha hp hn
+
+/-- **Bézier decomposition along one direction** (`decompose_curve`, one direction of `decompose_surface`; model
+    `decomposeDir`: split at the first interior knot `U[p+1 : -(p+1)][0]`, go on with the second piece), SAME tolerance
+    on both sides (after the first split both sides work on the identical normalised remainder, so a scaled tolerance
+    would be wrong there).  Hypothesis `hsep` is about the first interior knot only (if there is one): every knot of
+    the direction is equal to it or further than `tol` away in both ranges.  Conclusion: the lists of pieces are
+    IDENTICAL – or no split happens on either side (no fuel, no interior knot, split rejected) and each side returns
+    its own object untouched (not normalised, hence not equal). -/
+theorem decompose_affine_knots (a b : ℕ → K) (ha : ∀ d, 0 < a d) (dir : ℕ) (tol : K) (htol : 0 ≤ tol)
+    (fuel : ℕ) (S : Shape K)
+    (hp : S.deg dir < (S.kv dir).length) (hn : S.size dir < (S.kv dir).length)
+    (hsep : ∀ knot, (((S.kv dir).drop (S.deg dir + 1)).take ((S.kv dir).length - 2 * (S.deg dir + 1))).head? = some knot →
+      ∀ y ∈ S.kv dir, knot = y ∨ (tol < |knot - y| ∧ tol < a dir * |knot - y|)) :
+    decomposeDir dir tol fuel (S.affineKvs a b) = decomposeDir dir tol fuel S
+      ∨ (decomposeDir dir tol fuel (S.affineKvs a b) = [S.affineKvs a b] ∧ decomposeDir dir tol fuel S = [S]) :=
+  decomposeDir_affineKvs_fixed_tol a b ha dir tol htol fuel S hp hn hsep
+
+/-- … when the first split does happen (fuel left, an interior knot `knot`, split accepted) the pieces are identical. -/
+theorem decompose_affine_knots_when_split (a b : ℕ → K) (ha : ∀ d, 0 < a d) (dir : ℕ) (tol : K) (htol : 0 ≤ tol)
+    (fuel : ℕ) (S : Shape K)
+    (hp : S.deg dir < (S.kv dir).length) (hn : S.size dir < (S.kv dir).length) (knot : K) (rest : List K)
+    (hI : ((S.kv dir).drop (S.deg dir + 1)).take ((S.kv dir).length - 2 * (S.deg dir + 1)) = knot :: rest)
+    (hsplit : (splitDir S dir knot tol).isSome = true)
+    (hsep : ∀ y ∈ S.kv dir, knot = y ∨ (tol < |knot - y| ∧ tol < a dir * |knot - y|)) :
+    decomposeDir dir tol (fuel + 1) (S.affineKvs a b) = decomposeDir dir tol (fuel + 1) S :=
+  decomposeDir_affineKvs_of_split a b ha dir tol fuel S hp hn knot rest hI hsplit
+    (findMultiplicity_affine_sep knot (S.kv dir) tol (a dir) (b dir) (ha dir) htol hsep)
+
+/-- **`decompose_surface(…, decompose_dir='uv')`** (model `decomposeUV`: u direction first, then every strip in v) on
+    the surface with both knot vectors on other ranges, same tolerance: identical list of patches, or no split at all
+    on either side. -/
+theorem decompose_uv_affine_knots (a b : ℕ → K) (ha : ∀ d, 0 < a d) (tol : K) (htol : 0 ≤ tol) (S : Shape K)
+    (hp0 : S.deg 0 < (S.kv 0).length) (hn0 : S.size 0 < (S.kv 0).length)
+    (hp1 : S.deg 1 < (S.kv 1).length) (hn1 : S.size 1 < (S.kv 1).length)
+    (hsep0 : ∀ knot, (((S.kv 0).drop (S.deg 0 + 1)).take ((S.kv 0).length - 2 * (S.deg 0 + 1))).head? = some knot →
+      ∀ y ∈ S.kv 0, knot = y ∨ (tol < |knot - y| ∧ tol < a 0 * |knot - y|))
+    (hsep1 : ∀ knot, (((S.kv 1).drop (S.deg 1 + 1)).take ((S.kv 1).length - 2 * (S.deg 1 + 1))).head? = some knot →
+      ∀ y ∈ S.kv 1, knot = y ∨ (tol < |knot - y| ∧ tol < a 1 * |knot - y|)) :
+    decomposeUV tol (S.affineKvs a b) = decomposeUV tol S
+      ∨ (decomposeUV tol (S.affineKvs a b) = [S.affineKvs a b] ∧ decomposeUV tol S = [S]) :=
+  decomposeUV_affineKvs_fixed_tol a b ha tol htol S hp0 hn0 hp1 hn1 hsep0 hsep1
+
+/-- … when the u direction does split, the patches are identical and the range of the v direction plays no role (no
+    hypothesis about it: the strips are normalised in both directions before they are split in v). -/
+theorem decompose_uv_affine_knots_when_split (a b : ℕ → K) (ha : ∀ d, 0 < a d) (tol : K) (htol : 0 ≤ tol) (S : Shape K)
+    (hp0 : S.deg 0 < (S.kv 0).length) (hn0 : S.size 0 < (S.kv 0).length) (knot : K) (rest : List K)
+    (hI : ((S.kv 0).drop (S.deg 0 + 1)).take ((S.kv 0).length - 2 * (S.deg 0 + 1)) = knot :: rest)
+    (hsplit : (splitDir S 0 knot tol).isSome = true)
+    (hsep : ∀ y ∈ S.kv 0, knot = y ∨ (tol < |knot - y| ∧ tol < a 0 * |knot - y|)) :
+    decomposeUV tol (S.affineKvs a b) = decomposeUV tol S :=
+  decomposeUV_affineKvs_of_split a b ha tol S hp0 hn0 knot rest hI hsplit
+    (findMultiplicity_affine_sep knot (S.kv 0) tol (a 0) (b 0) (ha 0) htol hsep)
+
+/-! #### the hypotheses are satisfiable: a degree 2 × 1 surface (4 × 3 points), `u ↦ 2·u + 3`, `v ↦ 3·v − 1`
+    (`Lemmas/KnotRangeFoldWitness.lean`) -/
+section witness_all_directions
+
+/-- both directions requested (`u = 1/2 ↦ 4`, `v = 2 ↦ 5`, once each), different maps per direction, the same
+    tolerance `1/100` on both sides -/
+example : insertKnot (krSurf.affineKvs krA krB) (affineParams krA krB [some (1/2), some 2]) [1, 1] (1/100) true
+    = ((insertKnot krSurf [some (1/2), some 2] [1, 1] (1/100) true).1.affineKvs krA krB,
+       (insertKnot krSurf [some (1/2), some 2] [1, 1] (1/100) true).2) := by
+  refine insert_knot_all_directions_affine_knots_fixed_tolerance krSurf krA krB _ _ (1/100) true (by norm_num) ?_
+  intro d hd u hu hn
+  have hd' : d = 0 ∨ d = 1 := by change d < 2 at hd; omega
+  rcases hd' with rfl | rfl
+  · obtain rfl : (1/2 : ℚ) = u := by simpa using hu
+    exact ⟨by decide +kernel, by decide, by decide +kernel⟩
+  · obtain rfl : (2 : ℚ) = u := by simpa using hu
+    exact ⟨by decide +kernel, by decide, by decide +kernel⟩
+
+/-- … the call completes, and what the two sides are: knot vectors `[3,3,3,4,5,7,7,7]`, `[-1,-1,2,5,8,8]`, a 5 × 4 net -/
+example : (insertKnot krSurf [some (1/2), some 2] [1, 1] (1/100) true).2 = true
+    ∧ ((insertKnot krSurf [some (1/2), some 2] [1, 1] (1/100) true).1.affineKvs krA krB).kvs
+        = [[3,3,3,4,5,7,7,7], [-1,-1,2,5,8,8]]
+    ∧ (insertKnot krSurf [some (1/2), some 2] [1, 1] (1/100) true).1.sizes = [5, 4]
+    ∧ (affineParams krA krB [some (1/2), some 2]) = [some 4, some 5] := by decide +kernel
+
+/-- one common factor `2` (shifts `3` and `-1`), tolerance scaled `1/100 ↦ 1/50` -/
+example : insertKnot (krSurf.affineKvs (fun _ => 2) krB) (affineParams (fun _ => 2) krB [some (1/2), some 2]) [1, 1]
+      (2 * (1/100)) true
+    = ((insertKnot krSurf [some (1/2), some 2] [1, 1] (1/100) true).1.affineKvs (fun _ => 2) krB,
+       (insertKnot krSurf [some (1/2), some 2] [1, 1] (1/100) true).2) := by
+  refine insert_knot_all_directions_affine_knots krSurf (fun _ => 2) krB _ _ (1/100) _ true ?_
+  intro d hd u _ _
+  have hd' : d = 0 ∨ d = 1 := by change d < 2 at hd; omega
+  rcases hd' with rfl | rfl <;> exact ⟨by norm_num, by decide, rfl⟩
+
+/-- removal of the interior knot `1` of both directions (generous removability tolerance: both are removed) -/
+example : removeKnot (krSurf.affineKvs krA krB) (affineParams krA krB [some 1, some 1]) [1, 1] (1/100) 1000 true
+    = ((removeKnot krSurf [some 1, some 1] [1, 1] (1/100) 1000 true).1.affineKvs krA krB,
+       (removeKnot krSurf [some 1, some 1] [1, 1] (1/100) 1000 true).2) := by
+  refine remove_knot_all_directions_affine_knots_fixed_tolerance krSurf krA krB _ _ (1/100) 1000 true (by norm_num) ?_
+  intro d hd u hu hn
+  have hd' : d = 0 ∨ d = 1 := by change d < 2 at hd; omega
+  rcases hd' with rfl | rfl
+  · obtain rfl : (1 : ℚ) = u := by simpa using hu
+    exact ⟨by decide +kernel, by decide, by decide +kernel⟩
+  · obtain rfl : (1 : ℚ) = u := by simpa using hu
+    exact ⟨by decide +kernel, by decide, by decide +kernel⟩
+
+example : (removeKnot krSurf [some 1, some 1] [1, 1] (1/100) 1000 true).2 = true
+    ∧ (removeKnot krSurf [some 1, some 1] [1, 1] (1/100) 1000 true).1.sizes = [3, 2] := by decide +kernel
+
+/-- refinement of both directions, density 1, common factor `2` -/
+example : refineKnotvector (krSurf.affineKvs (fun _ => 2) krB) [1, 1] (2 * (1/100))
+    = ((refineKnotvector krSurf [1, 1] (1/100)).1.affineKvs (fun _ => 2) krB,
+       (refineKnotvector krSurf [1, 1] (1/100)).2) := by
+  refine refine_knotvector_all_directions_affine_knots krSurf (fun _ => 2) krB _ (1/100) _ ?_
+  intro d hd _
+  have hd' : d = 0 ∨ d = 1 := by change d < 2 at hd; omega
+  rcases hd' with rfl | rfl <;> exact ⟨by norm_num, by decide, rfl⟩
+
+example : (refineKnotvector krSurf [1, 1] (1/100)).2 = true
+    ∧ (refineKnotvector krSurf [1, 1] (1/100)).1.sizes = [9, 5] := by decide +kernel
+
+/-- `decompose_surface` in both directions: 2 × 2 Bézier patches, identical from both knot ranges -/
+example : decomposeUV (1/100) (krSurf.affineKvs krA krB) = decomposeUV (1/100) krSurf :=
+  decompose_uv_affine_knots_when_split krA krB (fun d => by unfold krA; split <;> norm_num) (1/100) (by norm_num) krSurf
+    (by decide) (by decide) 1 [] (by decide +kernel) (by decide +kernel) (by decide +kernel)
+
+example : (decomposeUV (1/100) krSurf).length = 4 ∧ krSurf.affineKvs krA krB ≠ krSurf := by
+  refine ⟨by decide +kernel, fun h => ?_⟩
+  have : (krSurf.affineKvs krA krB).kvs = krSurf.kvs := by rw [h]
+  revert this
+  decide +kernel
+
+end witness_all_directions
 
 /-! ### the binary span search never fails on the domain -/
 
